@@ -302,27 +302,28 @@ def oracle_node(ctx, t, factors, rep):
 
 # ----------------------------------------------------------------------------- plans
 def config_plan(ctx, volume=1):
-    """(type string, names, dims) deterministic list; names are distinct, not necessarily 0..k-1"""
+    """(type string, names, dims) deterministic list; names are distinct, not necessarily 0..k-1.
+    `_tensor_product_hs_hs` materialises a (d1·d2)² × (d1·d2)² matrix (134 MB for three qubits, 344 MB for two
+    qutrits), so gate-like products of three subsystems / two qutrits are rationed."""
     g = ctx.npgen(7)
     plan = []
     quick = ctx.quick and volume == 1
     type_sets = {2: ["SS", "PP", "GG", "GM", "MG", "MM", "SE", "ES", "EE"],
-                 3: ["SSS", "PPP", "GGG", "GMG", "MMM", "MGM", "SES", "EES", "EEE"],
+                 3: ["SSS", "PPP", "GGG", "GMG", "SES", "EES", "EEE"] + ([] if quick else ["MMM", "MGM"]),
                  4: ["SSSS", "PPPP", "SESE"]}
     for k in (2, 3, 4):
         for ts in type_sets[k]:
-            reps = (1 if quick else 2) * volume
+            heavy = any(c in "GM" for c in ts)
+            reps = (1 if (quick or (heavy and k == 3)) else 2) * volume
             for rpt in range(reps):
                 names = sorted(int(x) for x in g.choice(9, size=k, replace=False))
-                heavy = any(c in "GM" for c in ts)
                 if k == 4:
                     dims = [2, 2, 2, 2] if (quick or rpt == 0) else [2, 3, 2, 2]
-                    if heavy:
-                        continue
                 elif k == 3:
                     dims = [2, 2, 2] if (heavy or (quick and rpt == 0)) else [[2, 3, 2], [3, 2, 2], [2, 2, 3]][int(g.integers(0, 3))]
                 else:
-                    dims = [[2, 3], [3, 2], [2, 2], [3, 3]][(len(plan) + rpt) % (3 if (heavy and quick) else 4)]
+                    pool = [[2, 3], [3, 2], [2, 2]] + ([[3, 3]] if (not heavy or (not quick and ts == "GG")) else [])
+                    dims = pool[(len(plan) + rpt) % len(pool)]
                 plan.append((ts, names, dims))
     return plan
 
@@ -516,8 +517,8 @@ def correspondence(ctx):
         counts = counts_for(k, g)
         factors = [make_factor(g, ts[i], names[i], dims[i], counts[i], t=i) for i in range(k)]
         arr = arrangements(k, ctx.quick, g)
-        if k == 3 and any(c in "GM" for c in ts) and ctx.quick:
-            arr = arr[::3]
+        if k == 3 and any(c in "GM" for c in ts):
+            arr = [arr[1], arr[-2]] if ctx.quick else arr[1::4]
         if k == 4 and not ctx.quick:
             arr = arr[::4]
         for perm, tr in arr:
@@ -631,8 +632,8 @@ def oracle_tensor(ctx, volume=1):
         arr = arrangements(k, False, g)
         if ctx.quick and k == 4:
             arr = arr[::3]
-        if ctx.quick and k == 3 and any(c in "GM" for c in ts):
-            arr = arr[::2]
+        if k == 3 and any(c in "GM" for c in ts):
+            arr = arr[::3] if ctx.quick else arr[::2]
         for perm, tr in arr:
             fs = [factors[i] for i in perm]
             rep = {"replay_kind": "tensor", "types": "".join(f.kind for f in fs), "names": [f.esys.name for f in fs],
